@@ -473,6 +473,7 @@ def run(ctx):
     pinned_search_fields(ctx)
     same_named_classes(ctx)
     folder_identity(ctx)
+    c07_comp.join_collisions(ctx, mk_search)  # the join (IdentJoin.lean): pairs of different fits
 
 
 class _FlatAnalysis(af.Analysis):
@@ -605,5 +606,7 @@ def replay(ctx, payload):
         same_named_classes(ctx)
     elif case.get("label") == "folder-identity":
         folder_identity(ctx)
+    elif str(case.get("label", "")).startswith("pair:") or case.get("label") == "collision":
+        c07_comp.join_collisions(ctx, mk_search)
     else:
         caller_names(ctx)
